@@ -6,11 +6,176 @@ open PhyVerif PhyVerif.C04
 theorem findPath_first_match (d : Dir) (names : List String) (f : String) (h : findPath d names = some f) :
     ∃ i, ∃ hi : i < names.length, globMatch (names[i]'hi) f = true ∧ f ∈ d.map (·.1) ∧
       ∀ j (hj : j < names.length), j < i → ∀ g ∈ d.map (·.1), globMatch (names[j]'hj) g = false := by
-  sorry
+  induction names with
+  | nil => simp [findPath] at h
+  | cons p rest ih =>
+    simp only [findPath] at h
+    split at h
+    · next g hg =>
+      cases h
+      rw [List.head?_filter] at hg
+      have h1 := List.find?_some hg
+      have h2 := List.mem_of_find?_eq_some hg
+      exact ⟨0, by simp, by simpa using h1, List.mem_map.2 ⟨g, h2, rfl⟩, fun j hj hlt => absurd hlt (by omega)⟩
+    · next hn =>
+      rw [List.head?_filter, List.find?_eq_none] at hn
+      obtain ⟨i, hi, h1, h2, h3⟩ := ih h
+      refine ⟨i + 1, by simpa using hi, by simpa using h1, h2, ?_⟩
+      intro j hj hlt g hg
+      cases j with
+      | zero =>
+        obtain ⟨x, hx, rfl⟩ := List.mem_map.1 hg
+        simpa using hn x hx
+      | succ j => simpa using h3 j (by simpa using hj) (by omega) g hg
 
 theorem findPath_none (d : Dir) (names : List String) (h : findPath d names = none) :
     ∀ p ∈ names, ∀ g ∈ d.map (·.1), globMatch p g = false := by
-  sorry
+  induction names with
+  | nil => simp
+  | cons p rest ih =>
+    simp only [findPath] at h
+    split at h
+    · cases h
+    · next hn =>
+      rw [List.head?_filter, List.find?_eq_none] at hn
+      intro q hq g hg
+      rcases List.mem_cons.1 hq with rfl | hq
+      · obtain ⟨x, hx, rfl⟩ := List.mem_map.1 hg
+        simpa using hn x hx
+      · exact ih h q hq g hg
+
+theorem splitStar_nostar (l : List Char) (h : '*' ∉ l) : splitStar l = (l, none) := by
+  induction l with
+  | nil => rfl
+  | cons c t ih =>
+    have hc : c ≠ '*' := fun e => h (by simp [e])
+    have ht : '*' ∉ t := fun e => h (by simp [e])
+    rw [splitStar]
+    · simp [ih ht]
+    · exact hc
+
+theorem globMatch_exact (p name : String) (h : '*' ∉ p.toList) : globMatch p name = true ↔ name = p := by
+  simp only [globMatch, splitStar_nostar _ h, beq_iff_eq, String.toList_inj]
+  exact eq_comm
+
+theorem findPath_exact_some (d : Dir) (p f : String) (hp : '*' ∉ p.toList) (h : findPath d [p] = some f) :
+    f = p ∧ p ∈ d.map (·.1) := by
+  obtain ⟨i, hi, h1, h2, -⟩ := findPath_first_match d [p] f h
+  have : i = 0 := by simpa using hi
+  subst this
+  have := (globMatch_exact p f hp).1 (by simpa using h1)
+  subst this
+  exact ⟨rfl, h2⟩
+
+theorem lookup_none_of_not_mem (d : Dir) (p : String) (h : p ∉ d.map (·.1)) : d.lookup p = none := by
+  rw [List.lookup_eq_none_iff]
+  intro x hx
+  simp only [bne_iff_ne, ne_eq]
+  intro e
+  exact h (List.mem_map.2 ⟨x, hx, e.symm⟩)
+
+theorem findPath_exact_none (d : Dir) (p : String) (hp : '*' ∉ p.toList) (h : findPath d [p] = none) :
+    p ∉ d.map (·.1) := by
+  intro hm
+  have := findPath_none d [p] h p (by simp) p hm
+  rw [(globMatch_exact p p hp).2 rfl] at this
+  cases this
+
+theorem readFile_exact (d : Dir) (p : String) (hp : '*' ∉ p.toList) : readFile d [p] = d.lookup p := by
+  unfold readFile
+  split
+  · next f hf => rw [(findPath_exact_some d p f hp hf).1]
+  · next hf => exact (lookup_none_of_not_mem d p (findPath_exact_none d p hp hf)).symm
+
+
+/-- the directory after the spike-cluster step -/
+def d1Of (d : Dir) : Dir :=
+  match findPath d ["spike_clusters.npy", "spikes.clusters*.npy"] with
+  | some _ => d
+  | none =>
+    match findPath d ["spike_templates.npy", "spikes.templates*.npy"] with
+    | some f => match d.lookup f with
+      | some a => d ++ [("spike_clusters.npy", a)]
+      | none => d
+    | none => d
+
+/-- the directory after the inverse-whitening step -/
+def d2Of (inv : Arr → Arr) (d1 : Dir) : Dir :=
+  (match readFile d1 ["whitening_mat_inv.npy"] with
+    | some a => (some (atleast 2 (squeeze (scrub a))), d1)
+    | none =>
+      match (readFile d1 ["whitening_mat.npy"]).map fun a => atleast 2 (squeeze (scrub a)) with
+      | some w => ((none : Option Arr), d1 ++ [("whitening_mat_inv.npy", inv w)])
+      | none => (none, d1 ++ [("whitening_mat_inv.npy", ({ shape := [], data := [] } : Arr))])).2
+
+theorem load_core (inv : Arr → Arr) (d : Dir) (v : View) (d' : Dir) (h : load inv d = .ok (v, d')) :
+    d' = d2Of inv (d1Of d) ∧
+    (findPath d ["spike_clusters.npy", "spikes.clusters*.npy"] = none →
+      ∃ f a, findPath d ["spike_templates.npy", "spikes.templates*.npy"] = some f ∧ d.lookup f = some a ∧
+        v.spikeClusters = squeeze (scrub a) ∧ v.spikeTemplates = squeeze (scrub a)) := by
+  simp only [load, bind, Except.bind, pure, Except.pure, throw, throwThe, MonadExceptOf.throw] at h
+  repeat' first
+    | (cases h; done)
+    | (injection h with h; injection h with hv hd)
+    | split at h
+  all_goals subst hv hd
+  all_goals refine ⟨by simp only [d1Of, d2Of, *]; rfl, fun hn => ?_⟩
+  all_goals first
+    | (have hc := ‹findPath d ["spike_clusters.npy", "spikes.clusters*.npy"] = some _›
+       rw [hn] at hc; cases hc; done)
+    | (have h1 := ‹readFile d ["spike_templates.npy", "spikes.templates*.npy"] = some _›
+       have h2 := ‹findPath d ["spike_templates.npy", "spikes.templates*.npy"] = some _›
+       simp only [readFile, h2] at h1
+       refine ⟨_, _, h2, h1, ?_, rfl⟩
+       simp_all)
+
+
+theorem d2Of_eq (inv : Arr → Arr) (d1 : Dir) :
+    ∃ w, d2Of inv d1 = d1 ++
+      (if d1.lookup "whitening_mat_inv.npy" = none then [("whitening_mat_inv.npy", w)] else []) := by
+  unfold d2Of
+  rw [readFile_exact d1 "whitening_mat_inv.npy" (by decide)]
+  split
+  · next a ha => exact ⟨⟨[], []⟩, by simp [ha]⟩
+  · next hn =>
+    split
+    · next w _ => exact ⟨inv w, by simp [hn]⟩
+    · exact ⟨⟨[], []⟩, by simp [hn]⟩
+
+theorem sc_not_mem (d : Dir) (hn : findPath d ["spike_clusters.npy", "spikes.clusters*.npy"] = none) :
+    "spike_clusters.npy" ∉ d.map (·.1) := by
+  intro hm
+  have := findPath_none d _ hn "spike_clusters.npy" (by simp) _ hm
+  rw [(globMatch_exact "spike_clusters.npy" "spike_clusters.npy" (by decide)).2 rfl] at this
+  cases this
+
+/-- shape of the directory returned by a successful load -/
+theorem load_dir (inv : Arr → Arr) (d : Dir) (v : View) (d' : Dir) (h : load inv d = .ok (v, d')) :
+    ∃ a w, d' = d ++
+        (if findPath d ["spike_clusters.npy", "spikes.clusters*.npy"] = none then [("spike_clusters.npy", a)] else []) ++
+        (if d.lookup "whitening_mat_inv.npy" = none then [("whitening_mat_inv.npy", w)] else []) ∧
+      (findPath d ["spike_clusters.npy", "spikes.clusters*.npy"] = none →
+        ∃ f, findPath d ["spike_templates.npy", "spikes.templates*.npy"] = some f ∧ d.lookup f = some a ∧
+          v.spikeClusters = squeeze (scrub a) ∧ v.spikeTemplates = squeeze (scrub a)) := by
+  obtain ⟨hd, hc⟩ := load_core inv d v d' h
+  obtain ⟨w, hw⟩ := d2Of_eq inv (d1Of d)
+  by_cases hn : findPath d ["spike_clusters.npy", "spikes.clusters*.npy"] = none
+  · obtain ⟨f, a, hf, ha, hsc, hst⟩ := hc hn
+    have h1 : d1Of d = d ++ [("spike_clusters.npy", a)] := by simp only [d1Of, hn, hf, ha]
+    refine ⟨a, w, ?_, fun _ => ⟨f, hf, ha, hsc, hst⟩⟩
+    rw [hd, hw, h1, List.lookup_append]
+    have : List.lookup "whitening_mat_inv.npy" [("spike_clusters.npy", a)] = none := by
+      simp [List.lookup]
+    rw [this, Option.or_none]
+    simp [hn]
+  · have h1 : d1Of d = d := by
+      unfold d1Of
+      split
+      · rfl
+      · next h0 => exact absurd h0 hn
+    refine ⟨⟨[], []⟩, w, ?_, fun h0 => absurd h0 hn⟩
+    rw [hd, hw, h1]
+    simp [hn]
 
 theorem load_frame (inv : Arr → Arr) (d : Dir) (v : View) (d' : Dir) (h : load inv d = .ok (v, d')) :
     (∀ name a, d.lookup name = some a → d'.lookup name = some a) ∧
@@ -20,23 +185,61 @@ theorem load_frame (inv : Arr → Arr) (d : Dir) (v : View) (d' : Dir) (h : load
     (d'.length = d.length +
       (if findPath d ["spike_clusters.npy", "spikes.clusters*.npy"] = none then 1 else 0) +
       (if d.lookup "whitening_mat_inv.npy" = none then 1 else 0)) := by
-  sorry
+  obtain ⟨a, w, hd, -⟩ := load_dir inv d v d' h
+  subst hd
+  refine ⟨?_, ?_, ?_, ?_⟩
+  · intro name x hx
+    simp [List.lookup_append, hx]
+  · intro name hname
+    simp only [List.map_append, List.mem_append] at hname
+    rcases hname with (hname | hname) | hname
+    · exact .inl hname
+    · split at hname
+      · simp at hname; exact .inr (.inl hname)
+      · simp at hname
+    · split at hname
+      · simp at hname; exact .inr (.inr hname)
+      · simp at hname
+  · constructor
+    · rintro ⟨hm, hnm⟩
+      apply Classical.byContradiction
+      intro hn
+      simp only [List.map_append, List.mem_append, hn, if_false, List.map_nil, List.not_mem_nil, or_false] at hm
+      rcases hm with hm | hm
+      · exact hnm hm
+      · split at hm
+        · simp at hm
+        · simp at hm
+    · intro hn
+      exact ⟨by simp [hn], sc_not_mem d hn⟩
+  · simp only [List.length_append]
+    split <;> split <;> simp
 
 theorem load_rejects_nonmonotone (inv : Arr → Arr) (d : Dir) (s : Arr) (hs : d.lookup "spike_times.npy" = some s)
     (hm : monotone s.data = false) : load inv d = .error .nonMonotone := by
-  sorry
+  simp only [load, bind, Except.bind, pure, Except.pure, throw, throwThe, MonadExceptOf.throw, hs]
+  simp [squeeze, hm]
 
 theorem scrub_spec (a : Arr) :
     (scrub a).shape = a.shape ∧ (scrub a).data.length = a.data.length ∧
     ∀ i (hi : i < a.data.length), (scrub a).data.getD i .nan =
       (match a.data[i]'hi with | .num v => .num v | _ => .num 0) := by
-  sorry
+  refine ⟨rfl, by simp [scrub], ?_⟩
+  intro i hi
+  simp only [scrub, List.getD_eq_getElem?_getD, List.getElem?_map, List.getElem?_eq_getElem hi, Option.map_some,
+    Option.getD_some]
+  cases a.data[i] <;> rfl
 
 theorem clusters_default (inv : Arr → Arr) (d : Dir) (v : View) (d' : Dir) (h : load inv d = .ok (v, d'))
     (hn : findPath d ["spike_clusters.npy", "spikes.clusters*.npy"] = none) :
     v.spikeClusters = v.spikeTemplates ∧
     ∃ f, findPath d ["spike_templates.npy", "spikes.templates*.npy"] = some f ∧
       d'.lookup "spike_clusters.npy" = d.lookup f := by
-  sorry
+  obtain ⟨a, w, hd, hc⟩ := load_dir inv d v d' h
+  obtain ⟨f, hf, ha, hsc, hst⟩ := hc hn
+  refine ⟨hsc.trans hst.symm, f, hf, ?_⟩
+  have hl : d.lookup "spike_clusters.npy" = none := lookup_none_of_not_mem d _ (sc_not_mem d hn)
+  rw [hd, ha]
+  simp [List.lookup_append, hl, hn, List.lookup]
 
 end PhyVerif.C04.Lemmas
